@@ -602,6 +602,39 @@ func (e *Env) call(n *ast.CallExpr) *Val {
 	case "cap":
 		v := e.tr(n.Args[0])
 		return intVal("(s.cap " + v.T + ")")
+	case "oldhas", "oldidx": // oldhas(m, k) / oldidx(m, k): membership / value in the OLD state, key evaluated in the current state
+		oe := *e
+		if e.old != nil {
+			oe.st = e.old
+		}
+		oe.inOld = true
+		m := oe.tr(n.Args[0])
+		e.errs = append(e.errs, oe.errs[len(e.errs):]...)
+		k := e.tr(n.Args[1])
+		mt, ok := m.Typ.Underlying().(*types.Map)
+		if !ok {
+			return e.errf("%s on non-map", fname)
+		}
+		dn, vn, _, ds, vs := fv.mapParts(mt)
+		if fname == "oldhas" {
+			return boolVal(fmt.Sprintf("(and (not (= %s 0)) (select (select %s %s) %s))", m.T, fv.heapAt(oe.st, dn, ds), m.T, k.T))
+		}
+		return &Val{T: fmt.Sprintf("(select (select %s %s) %s)", fv.heapAt(oe.st, vn, vs), m.T, k.T), Typ: mt.Elem()}
+	case "mapsame": // mapsame(m): map m has the same keys and values as in the old state
+		m := e.tr(n.Args[0])
+		mt, ok := m.Typ.Underlying().(*types.Map)
+		if !ok {
+			return e.errf("mapsame on non-map")
+		}
+		dn, vn, cn, ds, vs := fv.mapParts(mt)
+		old := e.old
+		if old == nil {
+			old = e.st
+		}
+		return boolVal(fmt.Sprintf("(and (= (select %s %s) (select %s %s)) (= (select %s %s) (select %s %s)) (= (select %s %s) (select %s %s)))",
+			fv.heapAt(e.st, dn, ds), m.T, fv.heapAt(old, dn, ds), m.T,
+			fv.heapAt(e.st, vn, vs), m.T, fv.heapAt(old, vn, vs), m.T,
+			fv.heapAt(e.st, cn, "(Array Int Int)"), m.T, fv.heapAt(old, cn, "(Array Int Int)"), m.T))
 	case "has": // has(m, k): key k in map m
 		m := e.tr(n.Args[0])
 		k := e.tr(n.Args[1])
@@ -619,6 +652,13 @@ func (e *Env) call(n *ast.CallExpr) *Val {
 			t = "(s.arr " + v.T + ")"
 		}
 		return boolVal("(>= " + t + " " + e.allocOld + ")")
+	case "allocated": // allocated(p): p is a non-nil reference allocated in the state the expression is evaluated in
+		v := e.tr(n.Args[0])
+		t := v.T
+		if _, ok := v.Typ.Underlying().(*types.Slice); ok {
+			t = "(s.arr " + v.T + ")"
+		}
+		return boolVal("(and (< 0 " + t + ") (< " + t + " " + fv.heapAt(e.st, "alloc", "Int") + "))")
 	case "arr": // arr(s): array identity of slice s
 		v := e.tr(n.Args[0])
 		return intVal("(s.arr " + v.T + ")")
@@ -844,6 +884,25 @@ func (e *Env) quant(kind string, n *ast.CallExpr) *Val {
 		return boolVal(fmt.Sprintf("(exists ((%s Int)) (! (and %s %s) :pattern (%s)))", bv, rng, body.T, pat.T))
 	}
 	if len(n.Args) == 4 {
+		// forall(x, T, body, trigger): typed bound variable with an explicit pattern
+		if id, ok := n.Args[0].(*ast.Ident); ok {
+			tname := exprText(n.Args[1])
+			if _, isVar := e.vars[tname]; !isVar && tname != "?" {
+				if t := e.fv.g.resolveType(tname); t != nil {
+					ne := e.child()
+					bv := "q!" + id.Name
+					ne.vars[id.Name] = &Val{T: bv, Typ: t}
+					body := ne.tr(n.Args[2])
+					pat := ne.tr(n.Args[3])
+					e.errs = append(e.errs, ne.errs[len(e.errs):]...)
+					facts := e.fv.typeFactsNoAlloc(bv, t)
+					if kind == "forall" {
+						return boolVal(fmt.Sprintf("(forall ((%s %s)) (! %s :pattern (%s)))", bv, e.fv.sortOf(t), implies(facts, body.T), pat.T))
+					}
+					return boolVal(fmt.Sprintf("(exists ((%s %s)) (! %s :pattern (%s)))", bv, e.fv.sortOf(t), and(facts, body.T), pat.T))
+				}
+			}
+		}
 		id, ok := n.Args[0].(*ast.Ident)
 		if !ok {
 			return e.errf("%s: first arg must be identifier", kind)
@@ -887,9 +946,7 @@ func (fv *FuncVC) typeFactsNoAlloc(term string, t types.Type) string {
 	if lo, hi, ok := intRange(t); ok {
 		return fmt.Sprintf("(and (<= %s %s) (<= %s %s))", intLit(lo), term, term, intLit(hi))
 	}
-	if isString(t) {
-		return fmt.Sprintf("(<= 0 (slen %s))", term)
-	}
+	// strings: (slen s) >= 0 is a global axiom of the preamble, no guard needed
 	return "true"
 }
 
